@@ -220,7 +220,7 @@ func isAuthzError(o StepOut) bool {
 		return false
 	}
 	s := strings.ToLower(o.V.S)
-	return strings.Contains(s, "authori") || strings.Contains(s, "authenticated") || strings.Contains(s, "unauthorized")
+	return strings.Contains(s, "authori") || strings.Contains(s, "authenticated") || strings.Contains(s, "unauthorized") || strings.Contains(s, "is disabled")
 }
 
 func (c06Check) Run(u Unit, w *Worker) UnitResult {
